@@ -272,8 +272,18 @@ def main(argv=None):
 
     for k in known_hit:
         print('KNOWN-FINDING: property=%s %s' % (prop, k['what']))
-    for path, confirmed, name in violations:
-        print('VIOLATION property=%s replay=%s%s' % (prop, path, '' if confirmed else ' no-failing-input-found'))
+    # one obligation usually fails on many paths: print at most 3 lines per obligation (unit + label), confirmed ones first; every
+    # failing path still has its replay file and is counted in the evidence
+    import re as _re
+    per = {}
+    for path, confirmed, name in sorted(violations, key=lambda v: not v[1]):
+        key = _re.sub(r'/p\d+$', '', name)
+        per.setdefault(key, []).append((path, confirmed))
+    for key, items in per.items():
+        for path, confirmed in items[:3]:
+            print('VIOLATION property=%s replay=%s%s' % (prop, path, '' if confirmed else ' no-failing-input-found'))
+        if len(items) > 3:
+            print('  (+%d more failing paths of obligation %s; replay files in %s)' % (len(items) - 3, key[:120], os.path.join(OUTP, 'replay')))
     for name, why in undecided:
         print('UNDECIDED property=%s unit=%s reason=%s' % (prop, name, ' '.join(str(why).split())[:300]))
     for name, why in crashes:
